@@ -51,7 +51,7 @@ theorem hist_peek_current (pre : Prefixes K) (t : Lut K) (st : K × UnitV K)
 theorem hist_base_invariant (pre : Prefixes K) (t : Lut K) (ops : List (HOp K)) (st : K × UnitV K)
     (h : ∀ tg ∈ convertTargets ops, tg.dim = st.2.dim ∧ tg.scale ≠ 0) :
     (runHist pre t st ops).1.2.dim = st.2.dim
-    ∧ baseOf pre t (runHist pre t st ops).1 = baseOf pre t st := by
+    ∧ siMagnitude pre t (runHist pre t st ops).1 = siMagnitude pre t st := by
   induction ops generalizing st with
   | nil => exact ⟨rfl, rfl⟩
   | cons op ops ih =>
@@ -82,8 +82,8 @@ theorem hist_collapse (pre : Prefixes K) (t : Lut K) (ops : List (HOp K)) (st : 
   have e1 : convertToUnits pre t st' tg = inUnits pre t st'.2 st'.1 tg := (routes_agree pre t st'.2 tg st'.1).1
   have e2 : convertToUnits pre t st tg = inUnits pre t st.2 st.1 tg := (routes_agree pre t st.2 tg st.1).1
   simp only [toValue, ← e1, ← e2, hv1, hv2, Except.map]
-  have : baseOf pre t (v1, tg) = baseOf pre t (v2, tg) := by rw [hb1, hb2, hbase]
-  simp only [baseOf, toBase] at this
+  have : siMagnitude pre t (v1, tg) = siMagnitude pre t (v2, tg) := by rw [hb1, hb2, hbase]
+  simp only [siMagnitude, toBase] at this
   congr 1
   grind
 
